@@ -111,20 +111,28 @@ func c16Do(shape int, v any, vk int, bind func(dest any) error, ref bool) c16Out
 	case 7: // non-pointer destination
 		err := call(c16T{})
 		return c16Outcome{err != nil, nil}
-	default: // untyped nil
+	case 8: // untyped nil
 		err := call(nil)
 		return c16Outcome{err != nil, nil}
+	case 9: // a named type of the same kind as a string value (a *different* type: JSON path)
+		var d vMyStr
+		err := call(&d)
+		return c16Outcome{err != nil, d}
+	default: // a named int type
+		var d vMyInt
+		err := call(&d)
+		return c16Outcome{err != nil, d}
 	}
 }
 
-const c16Shapes = 9
+const c16Shapes = 11
 
 func c16Check(v any, vk, shape int, got c16Outcome, panicked bool) {
 	vAssert(!panicked, "bind-never-panics")
 	if panicked {
 		return
 	}
-	if shape >= 6 {
+	if shape >= 6 && shape <= 8 {
 		vCover("bad-destination")
 		vAssert(got.isErr, "nil-or-non-pointer-destination-is-an-error")
 		return
@@ -175,7 +183,7 @@ func VH_C16_store() {
 	var viaResult c16Outcome
 	p2 := vPanics(func() { viaResult = c16Do(shape, v, vk, func(d any) error { return NewResult(v).Bind(d) }, false) })
 	vAssert(!p2 && viaResult.isErr == got.isErr, "store-bind-and-result-bind-agree-on-errors")
-	if !got.isErr && !viaResult.isErr && shape < 6 {
+	if !got.isErr && !viaResult.isErr && (shape < 6 || shape > 8) {
 		vAssert(vSame(got.val, viaResult.val), "store-bind-and-result-bind-agree-on-values")
 	}
 	sv, _ := st.Get(key)
